@@ -1,5 +1,7 @@
 """C17 -- SIGINT yields KeyboardInterrupt after clean shutdown, or correct completion."""
+import os
 import random
+import re
 import time
 
 from lib import scen as S, runner
@@ -101,6 +103,63 @@ def analyse(recs):
     return bad, hangs
 
 
+_RANGES = {}
+
+
+def _fn_ranges(fname):
+    """[(qualified-ish name, first line, last line)] of every function in /repo/mpire/<fname> (innermost = smallest range)"""
+    import ast
+    from lib.common import REPO
+    if fname not in _RANGES:
+        out = []
+        try:
+            tree = ast.parse(open(os.path.join(REPO, 'mpire', fname)).read())
+            for node in ast.walk(tree):
+                if isinstance(node, (ast.FunctionDef, ast.AsyncFunctionDef)):
+                    out.append((node.name, node.lineno, node.end_lineno))
+        except (OSError, SyntaxError):
+            pass
+        _RANGES[fname] = out
+    return _RANGES[fname]
+
+
+def norm_point(at):
+    """a delivery point without line numbers (they move with every edit of the file): the enclosing function instead"""
+    try:
+        kind, rest = at.split('|', 1)
+        a, b, c = rest.split(':')
+        if kind == 'call':                       # call|file:func:firstline
+            return f"{kind}|{a}:{b}"
+        if kind in ('xcall', 'cret'):            # xcall|file:line:callee
+            line = int(b)
+            encl = [r for r in _fn_ranges(a) if r[1] <= line <= r[2]]
+            fn = min(encl, key=lambda r: r[2] - r[1])[0] if encl else '?'
+            return f"{kind}|{a}:{fn}:{c}"
+    except (ValueError, IndexError):
+        pass
+    return at
+
+
+def point_regex(norm):
+    """regex over concrete point ids for a normalised point"""
+    kind, rest = norm.split('|', 1)
+    parts = rest.split(':')
+    if kind == 'call':
+        return r"call\|%s:%s:\d+" % (re.escape(parts[0]), re.escape(parts[1]))
+    fname, fn, callee = parts
+    lines = sorted({ln for name, lo, hi in _fn_ranges(fname) if name == fn for ln in range(lo, hi + 1)})
+    return r"%s\|%s:(%s):%s" % (kind, re.escape(fname), '|'.join(map(str, lines)) or r'\d+', re.escape(callee))
+
+
+def sig_point(rec):
+    sg = rec['scenario']['sig']
+    if sg.get('norm'):
+        return sg['norm']
+    if sg.get('at'):
+        return norm_point(sg['at'])
+    return sg.get('at_re') or 'time'
+
+
 def run(ctx):
     rng = random.Random(ctx['seed'] + 17)
     t0 = time.time()
@@ -135,7 +194,7 @@ def run(ctx):
             b['calls'][0]['params']['progress_bar'] = True
             b['pool'].pop('keep_alive', None)
             b['budget'] = 15
-            scens.insert(0, with_sigint(b, {'mode': 'line', 'at': at, 'hit': 1}, '@known'))
+            scens.insert(0, with_sigint(b, {'mode': 'line', 'at_re': point_regex(at), 'hit': 1, 'norm': at}, '@known'))
     # ... and points that every run visits: the start-up of the progress-bar handler thread (deferred on purpose by the library)
     for j, pat in enumerate([r'xcall\|progress_bar\.py:\d+:wait', r'xcall\|progress_bar\.py:\d+:start', r'call\|progress_bar\.py:__enter__:\d+']):
         b = base_scen(random.Random(2 + j), 910 + j, ['fork', 'threading', 'forkserver'][j])
@@ -147,7 +206,7 @@ def run(ctx):
     bad, hangs = analyse(recs)
     out_v, seen = [], set()
     for rec, msg, cls in bad:
-        sig = cls + ':' + ((rec['scenario']['sig'].get('at') or rec['scenario']['sig'].get('at_re') or 'time'))
+        sig = cls + ':' + sig_point(rec)
         if cls in seen and len(out_v) > 12:
             continue
         seen.add(cls)
@@ -159,7 +218,7 @@ def run(ctx):
     known_sigs = {f['signature'] for f in known_findings() if f.get('property') == 'C17' and f.get('status') == 'open'}
     reported = set()
     for rec in hangs[:12]:
-        sig = 'hang:' + ((rec['scenario']['sig'].get('at') or rec['scenario']['sig'].get('at_re') or 'time'))
+        sig = 'hang:' + sig_point(rec)
         if sig in reported:
             continue
         reported.add(sig)
